@@ -375,4 +375,9 @@ Example announce_example :
   same_value (scrape_value [{| f_ih := repeat 7 20; f_complete := 1; f_incomplete := 2 |}])
              (scrape_value [{| f_ih := repeat 7 20; f_complete := 1; f_incomplete := 2 |}]) = true /\
   same_value (error_value InternalErr) (error_value InternalErr) = true.
-Proof. vm_compute. repeat split; eexists; repeat split. Qed.
+Proof.
+  cbv zeta. split; [vm_compute; reflexivity|].
+  split; [eexists; split; [reflexivity|vm_compute; reflexivity]|].
+  split; [eexists; split; [reflexivity|]; split; [vm_compute; reflexivity|]; split; vm_compute; reflexivity|].
+  split; vm_compute; reflexivity.
+Qed.
